@@ -176,7 +176,9 @@ impl Machine for AdsrM {
                         }
                     }
                 }
-                let ph1 = st;
+                // the reference follows the legal phase structure: when the real envelope leaves the phase, the model
+                // moves to the legal successor whatever the real one did (C01 / C03 are judged against the model's phase)
+                let ph1 = if st == ph0 { ph0 } else { next };
                 let start0 = self.m.start;
                 self.m.phase = ph1;
                 if ph1 == DECAY && ph0 != DECAY {
@@ -308,7 +310,6 @@ impl Machine for AdsrM {
         let st = st_num(self.a.verif_state());
         if st != self.m.phase {
             fnd.push(("C02", "phase-after-event", format!("after {} in {} the envelope is in {}, expected {}", Self::op_str(op), PH[ph0 as usize], PH[st as usize], PH[self.m.phase as usize])));
-            self.m.phase = st;
         }
         for (p, c, d) in fnd {
             out.flag(p, c, d);
@@ -635,7 +636,7 @@ fn sweep_increments(ctx: &Ctx, rep: &mut Report, props: &[&'static str]) {
 /// changes, or a pair of them) is applied and the envelope is then ticked through to rest, all oracles running.
 fn sweep_mid_phase_events(ctx: &Ctx, rep: &mut Report, props: &[&'static str]) {
     let thorough = ctx.tier.is_thorough();
-    let configs: Vec<(f32, f32)> = if thorough { vec![(1000.0, 0.5), (44100.0, 0.02), (48000.0, 0.01), (192000.0, 0.004), (8000.0, 0.1), (22050.0, 0.03), (100.0, 3.0)] } else { vec![(1000.0, 0.3), (44100.0, 0.01), (192000.0, 0.002)] };
+    let configs: Vec<(f32, f32)> = if thorough { vec![(1000.0, 0.5), (44100.0, 0.02), (48000.0, 0.1), (192000.0, 0.004), (8000.0, 0.1), (22050.0, 0.03), (100.0, 3.0), (96000.0, 0.2)] } else { vec![(1000.0, 0.3), (44100.0, 0.01), (192000.0, 0.002), (48000.0, 0.1)] };
     let npos: u64 = if thorough { 48 } else { 16 };
     let events: Vec<Vec<String>> = vec![
         vec!["gate_on".into()],
@@ -647,6 +648,8 @@ fn sweep_mid_phase_events(ctx: &Ctx, rep: &mut Report, props: &[&'static str]) {
         vec!["attack:0.05".into(), "decay:0.05".into(), "release:0.05".into()],
         vec!["attack:0.0013".into(), "decay:0.0013".into(), "release:0.0013".into()],
         vec!["gate_on".into(), "tick".into(), "gate_off".into(), "tick".into(), "gate_on".into()],
+        vec!["nudge:1.002".into()],
+        vec!["nudge:0.9982".into()],
     ];
     let levels: Vec<f32> = if thorough { LEVELS.to_vec() } else { vec![0.0, 0.001, 0.25, 0.5, 0.9, 1.0] };
     let jobs = configs.len() as u64 * 3 * levels.len() as u64 * npos * events.len() as u64;
@@ -676,7 +679,18 @@ fn sweep_mid_phase_events(ctx: &Ctx, rep: &mut Report, props: &[&'static str]) {
             // positions spread over the phase, not aligned with table cells
             let n = 1 + (total * (2 * pos + 1)) / (2 * npos) + (pos % 3);
             let mut ops = vec![phase_time_op(phase, t), format!("tick*{}", n.min(total + 2))];
-            ops.extend(ev.iter().cloned());
+            for e in ev.iter() {
+                if let Some(k) = e.strip_prefix("nudge:") {
+                    // all three times moved by a fraction of a percent in mid-phase: the remainder is rescaled
+                    let k: f32 = k.parse().unwrap();
+                    ops.push(format!("attack:{:?}", t * k));
+                    ops.push(format!("decay:{:?}", 0.001f32 * k));
+                    ops.push(format!("release:{:?}", 0.001f32 * k));
+                    ops.push(phase_time_op(phase, t * k));
+                } else {
+                    ops.push(e.clone());
+                }
+            }
             // run to the end of everything: remaining phases at the configured times
             ops.push(format!("tick*{}", 2 * total + 40));
             ops.push("gate_off".into());
@@ -693,7 +707,36 @@ fn sweep_mid_phase_events(ctx: &Ctx, rep: &mut Report, props: &[&'static str]) {
     rep.subruns.push(json!({"engine": "E2-sweep", "what": "one event (or event pair) applied at a lattice of positions inside each slow phase, then run to rest", "configs": configs.iter().map(|c| json!({"fs": c.0, "T": c.1})).collect::<Vec<_>>(), "positions_per_phase": npos, "events": events, "levels": levels.len(), "runs": jobs}));
 }
 
+/// the sustain level moved in small steps, one step per tick, while sustaining and while decaying
+fn sweep_sustain_creep(ctx: &Ctx, rep: &mut Report, props: &[&'static str]) {
+    let deltas: [f32; 7] = [1.0e-4, -1.0e-4, 2.0e-5, 2.4e-4, -2.5e-4, 1.0e-6, 3.0e-3];
+    let jobs = 14 * deltas.len() as u64 * 2;
+    let pv: Vec<&'static str> = props.to_vec();
+    let pr = &pv;
+    par_ranges(ctx, rep, jobs, jobs, |_, lo, hi, lc| {
+        for j in lo..hi {
+            let lv = LEVELS[(j % 14) as usize];
+            let d = deltas[((j / 14) % deltas.len() as u64) as usize];
+            let in_decay = j / (14 * deltas.len() as u64) == 1;
+            let mut m = AdsrM::new(1000.0, vec![], vec![]);
+            let mut script: Vec<String> = Vec::new();
+            let mut ops = vec![format!("sustain:{:?}", lv), "attack:0.002".to_string(), format!("decay:{}", if in_decay { "0.2" } else { "0.002" }), "release:0.003".to_string(), "gate_on".to_string(), format!("tick*{}", if in_decay { 40 } else { 12 })];
+            let mut s = lv;
+            for _ in 0..40 {
+                s = (s - d).max(0.0).min(1.0);
+                ops.push(format!("sustain:{:?}", s));
+                ops.push("tick".to_string());
+            }
+            ops.push("gate_off".into());
+            ops.push("tick*8".into());
+            drive(&mut m, &mut script, &ops, pr, lc);
+            lc.count("sustain_creep_runs", 1);
+        }
+    });
+}
+
 fn sweeps(ctx: &Ctx, rep: &mut Report, props: &[&'static str]) {
+    sweep_sustain_creep(ctx, rep, props);
     sweep_increments(ctx, rep, props);
     sweep_mid_phase_events(ctx, rep, props);
     if ctx.tier.is_thorough() {
@@ -734,11 +777,21 @@ pub fn c03(ctx: &Ctx) -> Report {
 
 /// run one envelope through attack, decay, release; count ticks per phase; check against the duration bounds
 pub fn run_config(fs: f32, t: f32, lc: &mut LocalCounts, cap_extra: u64) -> bool {
+    run_config_pre(fs, t, None, lc, cap_extra)
+}
+
+/// as run_config, but every time is first set to `pre` and then to `t` (the later value must win, however close)
+pub fn run_config_pre(fs: f32, t: f32, pre: Option<f32>, lc: &mut LocalCounts, cap_extra: u64) -> bool {
     let tc: f32 = TimePeriod::from(t).into();
     let x = tc as f64 * fs as f64;
     let kmin = ((x * (1.0 - (2.0f64).powi(-22))).ceil() as u64).max(1);
     let kmax = (x / (1.0 - x / TWO24) + 2.0).floor() as u64;
     let mut a = Adsr::new(fs);
+    if let Some(p) = pre {
+        a.set_input(Input::Attack(p.into()));
+        a.set_input(Input::Decay(p.into()));
+        a.set_input(Input::Release(p.into()));
+    }
     a.set_input(Input::Attack(t.into()));
     a.set_input(Input::Decay(t.into()));
     a.set_input(Input::Release(t.into()));
@@ -758,7 +811,11 @@ pub fn run_config(fs: f32, t: f32, lc: &mut LocalCounts, cap_extra: u64) -> bool
         phases[pi] = k;
         lc.count("phases_timed", 1);
         let script = |n: u64| -> Vec<String> {
-            let mut s = vec![format!("attack:{:?}", t), format!("decay:{:?}", t), format!("release:{:?}", t), "sustain:0.5".to_string(), "gate_on".to_string()];
+            let mut s: Vec<String> = Vec::new();
+            if let Some(p) = pre {
+                s.extend([format!("attack:{:?}", p), format!("decay:{:?}", p), format!("release:{:?}", p)]);
+            }
+            s.extend([format!("attack:{:?}", t), format!("decay:{:?}", t), format!("release:{:?}", t), "sustain:0.5".to_string(), "gate_on".to_string()]);
             let mut total = 0;
             for q in 0..pi {
                 total += phases[q];
@@ -808,6 +865,14 @@ pub fn plane(ctx: &Ctx, rep: &mut Report, cap_extra: u64) {
                 run_config(fs, t, lc, cap_extra);
                 lc.count("configurations", 1);
             }
+            // a time set twice with nearly equal values: the second one counts
+            if i % 5 == 0 {
+                for (t, k) in [(0.05f32, 0.998f32), (0.02, 1.002), (0.011, 0.9985)] {
+                    run_config_pre(fs, t, Some(t * k), lc, cap_extra);
+                    lc.count("configurations", 1);
+                    lc.count("configurations_with_a_time_set_twice", 1);
+                }
+            }
         }
     });
     // named grid
@@ -825,6 +890,13 @@ pub fn plane(ctx: &Ctx, rep: &mut Report, cap_extra: u64) {
             }
             run_config(fs, t, lc, cap_extra);
             lc.count("configurations", 1);
+            if tc as f64 * fs as f64 > 300.0 {
+                for k in [0.9981f32, 1.0019, 0.99999] {
+                    run_config_pre(fs, t, Some(tc * k), lc, cap_extra);
+                    lc.count("configurations", 1);
+                    lc.count("configurations_with_a_time_set_twice", 1);
+                }
+            }
         }
     });
     let n = rep.counters.get("configurations").copied().unwrap_or(0);
@@ -848,6 +920,7 @@ pub fn c02(ctx: &Ctx) -> Report {
     sweep_mid_phase_events(ctx, &mut rep, &["C02"]);
     rep.nontrivial = rep.counters.get("phases_timed").copied().unwrap_or(0) + rep.counters.get("phase_ends_after_more_than_one_tick").copied().unwrap_or(0);
     rep.require_nonzero("phases_shorter_than_one_sample");
+    rep.require_nonzero("configurations_with_a_time_set_twice");
     rep.require_nonzero("phase_ends_after_more_than_one_tick");
     rep.require_nonzero("time_changed_inside_its_phase");
     rep.require_nonzero("gate_on_ignored_in_attack");
